@@ -241,7 +241,7 @@ impl NodeRrsets {
         if rrsets.is_empty() {
             return true;
         }
-        for value in self.rrsets.read().values() {
+        for value in rrsets.values() {
             if value.get(version).is_some() {
                 return false;
             }
@@ -383,6 +383,11 @@ impl NodeChildren {
         lock.insert(label.into(), Default::default());
         let lock = RwLockWriteGuard::downgrade(lock);
         op(lock.get(label).unwrap(), true)
+    }
+
+    /// Returns whether the closure returns true for any of the children.
+    pub fn any(&self, op: impl FnMut(&Arc<ZoneNode>) -> bool) -> bool {
+        self.children.read().values().any(op)
     }
 
     fn rollback(&self, version: Version) {
